@@ -7,8 +7,9 @@ Decided by spec/FnEnv.tla.  TLC
     entity kinds x all action sequences of depth 2) and randomly (TLC -generate, seeded by VERIF_SEED) for the full
     universe at depth 5 - with the expected observation of each step, the expected heap after it and the
     expected result of an effect-free probe call.
-This harness renders each scenario to a real module (vf/c09_lib.py), builds g = malt.to_graph(f) and the
-malt.convert() wrapper, replays every behaviour and compares after every step.  The same behaviour is first
+This harness renders each scenario to a real module (vf/c09_lib.py), builds g = malt.to_graph(f), the
+malt.convert() wrapper and a converted caller that reaches f by recursive conversion (side "r"), replays every
+behaviour and compares after every step.  The same behaviour is first
 replayed with every side mapped to the unconverted function: a disagreement there means FnEnv.tla mis-models
 CPython -> MachineryError (exit 2), never a VIOLATION.
 """
@@ -31,6 +32,7 @@ CONSTANTS
  Kinds = {%(kinds)s}
  Depth = %(depth)d
  PreSet = {%(pre)s}
+ WrapSet = {%(wrap)s}
  DKSet = {%(dks)s}
  Mode = "%(mode)s"
  MaxKw = %(maxkw)d
@@ -48,11 +50,11 @@ CHECK_DEADLOCK FALSE
 DK_ALL = '"list", "obj", "mixed"'
 
 
-def job(name, po, p, ko, varp, fr, kinds, depth, pre, mode, maxkw, gen=0, variant='ok', dks=None):
+def job(name, po, p, ko, varp, fr, kinds, depth, pre, mode, maxkw, gen=0, variant='ok', dks=None, wrap='TRUE, FALSE'):
     if dks is None:
         dks = {'bind': '"list"', 'bindc': '"list"', 'env': '"list", "obj"'}.get(mode, DK_ALL)
     return dict(dks=dks, name=name, po=po, p=p, ko=ko, varp='TRUE' if varp else 'FALSE', fr=fr, kinds=kinds, depth=depth,
-                pre=pre, mode=mode, maxkw=maxkw, gen=gen, variant=variant)
+                pre=pre, mode=mode, maxkw=maxkw, gen=gen, variant=variant, wrap=wrap)
 
 
 NOT_LOOP = '"def", "lambda", "method", "nested", "decorated"'
@@ -61,7 +63,8 @@ TIERS = {
         procs=8, tlc_workers=6, tlc_parallel=2,
         jobs=[
             # closure shapes (<= 1 free variable) x entity kinds x every action sequence of length 2
-            job('env', 0, 1, 0, False, 1, NOT_LOOP, 2, 'TRUE, FALSE', 'env', 2),
+            # (decorated functions: the decorator returns a wrapper; both decorator forms in sim and in thorough)
+            job('env', 0, 1, 0, False, 1, NOT_LOOP, 2, 'TRUE, FALSE', 'env', 2, wrap='TRUE'),
             # two functions made from one code object: conversions of both, then every action / every action pair
             job('env-loopdef', 0, 1, 0, False, 1, '"loopdef"', 2, 'FALSE', 'env', 2),
             job('env-loopdef-pre', 0, 1, 1, False, 1, '"loopdef"', 1, 'TRUE', 'env', 2),
@@ -81,7 +84,7 @@ TIERS = {
             job('env-depth3', 0, 1, 0, False, 1, '"nested", "lambda", "method"', 3, 'TRUE', 'env', 2, dks='"list"'),
             job('bind', 2, 2, 1, True, 0, '"def"', 1, 'TRUE', 'bindc', 2),
             job('bind-ko2', 1, 1, 2, True, 0, '"def", "nested"', 1, 'TRUE', 'bind', 3),
-            job('bind-method-lambda', 1, 2, 1, True, 0, '"method", "lambda", "decorated"', 1, 'TRUE', 'bindc', 2),
+            job('bind-method-lambda', 1, 2, 1, True, 0, '"method", "lambda", "decorated"', 1, 'TRUE', 'bindr', 2, wrap='TRUE'),
             job('sim', 2, 2, 2, True, 3, ALL_KINDS, 5, 'TRUE, FALSE', 'sim', 3, gen=1700),
         ]),
 }
@@ -204,6 +207,8 @@ def run(rep):
                'the free variables and of one global) stands for "a body that uses its environment"; its effect is '
                'modelled by OutcomeIn in FnEnv.tla and validated against CPython on the unconverted function in '
                'every run')
+    rep.assume('side "r": the caller through which f is reached by recursive conversion is a plain forwarding function '
+               '(*a, **k) -> f(*a, **k) converted with to_graph (for a wrapping decorator: the decorator\'s own wrapper)')
     rep.assume('a free variable through which only a removed directive is reached is always an assigned cell '
                'holding a module and is never rebound (directives must be static, malt/converters/directives.py)')
 
@@ -221,6 +226,11 @@ def selftest():
         res = tlc.run_tlc('FnEnv', cfg, workers=4, timeout=600, name='FnEnv_variant')
         print('Variant "bypos": TLC reports violated invariants %s' % res.violated)
         bad = 'Agree' not in res.violated
+        j = job('variant2', 0, 1, 0, False, 0, '"decorated", "nested"', 1, 'TRUE, FALSE', 'env', 2, variant='calleedeco')
+        cfg = (CFG % j).replace('INVARIANT ReportSc\n', '').replace('INVARIANT Report\n', '')
+        res = tlc.run_tlc('FnEnv', cfg, workers=4, timeout=600, name='FnEnv_variant2')
+        print('Variant "calleedeco": TLC reports violated invariants %s' % res.violated)
+        bad = bad or 'SideEffectsOnce' not in res.violated
         j = job('cov', 0, 1, 1, False, 1, '"nested", "decorated"', 2, 'TRUE, FALSE', 'env', 2)
         cfg = (CFG % j).replace('INVARIANT ReportSc\n', '').replace('INVARIANT Report\n', '')
         res = tlc.run_tlc('FnEnv', cfg, workers=4, timeout=1500, name='FnEnv_cov', coverage=True).require_ok('coverage')
